@@ -22,8 +22,9 @@ import (
 // because the machine is slow. A deadline is translated when it is set: t lies d = t - time.Now()
 // ahead of (or behind: Shutdown's aLongTimeAgo) the moment of the call, so it expires at virtual
 // time now() + d. The only wall-clock quantity is the few nanoseconds between the library's own
-// time.Now() and the Set*Deadline call, which make d a little smaller than the configured timeout;
-// generated pauses keep a margin of at least a second from every read deadline (maxPause).
+// time.Now() and the Set*Deadline call, which make d a little smaller than the configured timeout
+// (never zero or negative: see deadline); generated pauses keep a margin of at least a second from
+// every read deadline (maxPause).
 type vclock struct{ ns atomic.Int64 }
 
 func (c *vclock) now() time.Duration { return time.Duration(c.ns.Load()) }
@@ -38,7 +39,16 @@ func (c *vclock) deadline(t time.Time) vdeadline {
 	if t.IsZero() {
 		return vdeadline{}
 	}
-	return vdeadline{true, c.now() + time.Until(t)}
+	d := time.Until(t)
+	if d <= 0 && d > -time.Minute {
+		// The library computes t as its own time.Now() plus a positive timeout (50 ms is among the
+		// configurations). On a box with a load average of 190 the goroutine can be pre-empted between
+		// that time.Now() and this call for longer than the timeout; the deadline the caller meant lay
+		// ahead of it. It expires as soon as the harness lets any time pass, not before (Shutdown's
+		// "a long time ago" is decades back and stays in the past).
+		d = 1
+	}
+	return vdeadline{true, c.now() + d}
 }
 
 func (c *vclock) expired(d vdeadline) bool { return d.set && c.now() >= d.at }
